@@ -82,7 +82,7 @@ def run(ctx, rep) -> None:
     rep.rule("C20.R4", "every evaluate_expression call site is inside try/except ExpressionError whose handler does not re-raise")
     rep.rule("C20.R5", "topological_sort appends a stage only under ref_ids ⊇ its requisites, ref_ids grows only with appended stages, no progress raises; validate_stage_graph: duplicate, self-edge, unknown, then sort; Workflow.create validates first")
     rep.undecided += ["comparison of context values whose own __eq__/__lt__ raise something other than TypeError", "completeness of validation (every acyclic, well-referenced graph is accepted) beyond the shape of the algorithm",
-                      "Workflow.create_orchestration and direct construction do not validate (outside the property's observation points)"]
+                      "direct construction Workflow(...) does not validate (not a creation API)"]
     mod = prog.module(EXPR)
     ev = prog.func(EXPR, "_eval_node")
     top = prog.func(EXPR, "evaluate_expression")
@@ -375,11 +375,21 @@ def run(ctx, rep) -> None:
     ok = bool(unk) and fill is not None and all(_for_of(u) is not None and _for_of(u) is not fill and _for_of(u).lineno > (fill.end_lineno or fill.lineno) for u in unk)
     rep.check(ok, "C20.R5", "unknown refs are detected against the complete ref set", "unknown = requisites - seen, in a pass after the one that filled `seen`" if ok else
               "requisites are compared with the refs seen SO FAR: a stage declared before its requisite is rejected as unknown (valid graphs refused)", vg.file, unk[0].lineno if unk else vg.node.lineno, disc="unknown-test")
-    wc = prog.func("stabilize.models.workflow", "Workflow.create")
-    calls = [c for c in ast.walk(wc.node) if isinstance(c, ast.Call) and norm(c.func) == "validate_stage_graph"]
-    ctor = [c for c in ast.walk(wc.node) if isinstance(c, ast.Call) and norm(c.func) == "cls"]
-    ok = bool(calls) and bool(ctor) and calls[0].lineno < ctor[0].lineno and norm(calls[0].args[0]) == "stages" and not any(isinstance(p_, ast.Try) for p_ in ast.walk(wc.node))
-    rep.check(ok, "C20.R5", "Workflow.create validates the graph before constructing", "validate_stage_graph(stages) precedes cls(...), not wrapped in a try", wc.file, calls[0].lineno if calls else wc.node.lineno, disc="create-validates")
+    # every factory of Workflow that takes the stage list validates it before constructing ("creating a workflow succeeds exactly
+    # when its stages form an acyclic graph with unique, known references" - whichever factory is used)
+    wcls = prog.cls("stabilize.models.workflow", "Workflow")
+    n_fact = 0
+    for mname, mi in sorted(wcls.methods.items()):
+        is_factory = any(norm(d) == "classmethod" for d in mi.node.decorator_list) and any(a.arg == "stages" for a in mi.node.args.args) and any(isinstance(c, ast.Call) and norm(c.func) == "cls" for c in ast.walk(mi.node))
+        if not is_factory:
+            continue
+        n_fact += 1
+        calls = [c for c in ast.walk(mi.node) if isinstance(c, ast.Call) and norm(c.func) == "validate_stage_graph"]
+        ctor = [c for c in ast.walk(mi.node) if isinstance(c, ast.Call) and norm(c.func) == "cls"]
+        ok = bool(calls) and calls[0].lineno < ctor[0].lineno and bool(calls[0].args) and norm(calls[0].args[0]) == "stages" and not any(isinstance(p_, ast.Try) for p_ in ast.walk(mi.node))
+        rep.check(ok, "C20.R5", f"Workflow.{mname} validates the graph before constructing", "validate_stage_graph(stages) precedes cls(...), not wrapped in a try" if ok else
+                  "the factory builds the workflow without validate_stage_graph(stages): a cycle, a duplicate or an unknown requisite ref is accepted at creation and only shows up at run time", mi.file, calls[0].lineno if calls else mi.node.lineno, disc=f"create-validates:{mname}" if mname != "create" else "create-validates")
+    rep.floor("Workflow factories taking a stage list", n_fact, 2)
 
 
 def _dominating(fn, target, par) -> list:
